@@ -2,13 +2,20 @@ package c20
 
 import (
 	"fmt"
+	"sort"
 	"testing"
 
 	"github.com/relab/hotstuff"
 	"github.com/relab/hotstuff/core"
+	"github.com/relab/hotstuff/core/eventloop"
 	"github.com/relab/hotstuff/internal/proto/clientpb"
+	"github.com/relab/hotstuff/internal/testutil"
+	"github.com/relab/hotstuff/security/blockchain"
+	"github.com/relab/hotstuff/security/cert"
+	"github.com/relab/hotstuff/security/crypto"
 	"github.com/relab/hotstuff/verifx/common"
 	"github.com/relab/hotstuff/verifx/kit"
+	"pgregory.net/rapid"
 )
 
 const id = "C20"
@@ -78,6 +85,10 @@ func TestC20ConfigThreshold(t *testing.T) {
 			cfg.AddReplica(&hotstuff.ReplicaInfo{ID: hotstuff.ID(i)})
 			// adding the same replica again must not change the membership size
 			cfg.AddReplica(&hotstuff.ReplicaInfo{ID: hotstuff.ID(i)})
+			// the threshold follows the membership as it grows (it is consulted while replicas are still being added)
+			if got, want := cfg.QuorumSize(), hotstuff.QuorumSize(i); got != want {
+				return common.Fail("config-quorum-while-growing", "after adding %d of %d replicas RuntimeConfig.QuorumSize() = %d, QuorumSize(%d) = %d", i, c.N, got, i, want)
+			}
 		}
 		if cfg.ReplicaCount() != c.N {
 			return common.Fail("config-count", "ReplicaCount = %d after adding %d distinct replicas", cfg.ReplicaCount(), c.N)
@@ -168,4 +179,97 @@ func boundaryProp(c boundaryCase) common.Result {
 		return common.Fail("threshold:"+c.Kind, "%s n=%d q=%d: %s with %d distinct valid signatures: accepted=%v (err=%v)", c.Scheme, c.N, q, c.Kind, c.K, accepted, err)
 	}
 	return common.OK(true, "", c.Kind, c.Scheme)
+}
+
+
+// ---- membership histories: the threshold in use is always the one of the membership configured so far -------------------
+
+type cfgOp struct {
+	K  string // add | query | count | certcheck
+	ID int
+}
+
+type cfgHistory struct {
+	Scheme string
+	Ops    []cfgOp
+}
+
+// TestC20ConfigHistory: arbitrary interleavings of AddReplica (new and already known ids) with threshold queries, directly
+// and through a certificate check of an Authority built on the same configuration.
+func TestC20ConfigHistory(t *testing.T) {
+	common.Check(t, id, "TestC20ConfigHistory", 3000, 60000, func(rt *rapid.T) cfgHistory {
+		h := cfgHistory{Scheme: rapid.SampledFrom([]string{"ecdsa", "eddsa"}).Draw(rt, "scheme")}
+		n := rapid.IntRange(1, 30).Draw(rt, "nops")
+		for i := 0; i < n; i++ {
+			h.Ops = append(h.Ops, cfgOp{K: rapid.SampledFrom([]string{"add", "add", "add", "query", "count", "certcheck"}).Draw(rt, "k"), ID: rapid.IntRange(1, 13).Draw(rt, "id")})
+		}
+		return h
+	}, func(h cfgHistory) common.Result {
+		ms := kit.NewCluster(h.Scheme, 13) // keys and public keys of 13 potential members
+		cfg := core.NewRuntimeConfig(1, ms[0].Cfg.PrivateKey())
+		el := eventloop.New(kit.Logger("c20"), 16)
+		bc := blockchain.New(el, kit.Logger("c20"), testutil.NewMockSender(1))
+		auth := cert.NewAuthority(cfg, bc, func() crypto.Base {
+			if h.Scheme == "eddsa" {
+				return crypto.NewEDDSA(cfg)
+			}
+			return crypto.NewECDSA(cfg)
+		}())
+		members := map[int]bool{}
+		queriedEarly := false
+		for i, op := range h.Ops {
+			n := len(members)
+			where := fmt.Sprintf("%s step %d %+v, members so far %d\nhistory %+v", h.Scheme, i, op, n, h.Ops[:i+1])
+			switch op.K {
+			case "add":
+				info, _ := ms[0].Cfg.ReplicaInfo(hotstuff.ID(op.ID))
+				cfg.AddReplica(info)
+				members[op.ID] = true
+			case "count":
+				if cfg.ReplicaCount() != n {
+					return common.Fail("history-count", "ReplicaCount = %d, distinct replicas added = %d\n%s", cfg.ReplicaCount(), n, where)
+				}
+			case "query":
+				if got, want := cfg.QuorumSize(), hotstuff.QuorumSize(n); got != want {
+					return common.Fail("history-quorum", "QuorumSize() = %d, want QuorumSize(%d) = %d\n%s", got, n, want, where)
+				}
+				queriedEarly = true
+			case "certcheck":
+				// a timeout certificate signed by the first k members (k = q-1 and k = q): refused / accepted
+				if n == 0 {
+					continue
+				}
+				var ids []int
+				for m := range members {
+					ids = append(ids, m)
+				}
+				sort.Ints(ids)
+				q := hotstuff.QuorumSize(n)
+				v := hotstuff.View(7)
+				for _, k := range []int{q - 1, q} {
+					if k < 1 || k > n {
+						continue
+					}
+					var signers []*kit.Member
+					for _, m := range ids[:k] {
+						signers = append(signers, ms[m-1])
+					}
+					sig, err := kit.CombineAny(h.Scheme, ms[0].Base, kit.SignEach(signers, v.ToBytes()))
+					if err != nil {
+						return common.Fail("harness", "combine: %v", err)
+					}
+					err = auth.VerifyTimeoutCert(hotstuff.NewTimeoutCert(sig, v))
+					if (err == nil) != (k >= q) {
+						return common.Fail("history-threshold", "membership %d (quorum %d): timeout certificate with %d distinct valid signatures accepted=%v (%v)\n%s", n, q, k, err == nil, err, where)
+					}
+				}
+				queriedEarly = true
+			}
+		}
+		cls := []string{h.Scheme}
+		if queriedEarly {
+			cls = append(cls, "threshold consulted while the membership was still changing")
+		}
+		return common.OK(queriedEarly && len(members) >= 2, "", cls...)
+	})
 }
